@@ -954,6 +954,12 @@ class Sim:
             raise ScriptExit(int(action[1]), "exit requested")
         elif op == "nop":
             pass
+        elif op == "ifexists":
+            # a script whose declarations depend on what it finds: [path, action if the path
+            # exists, action otherwise]
+            chosen = action[2] if w.exists(proc.rel(action[1])) else (action[3] if len(action) > 3 else None)
+            if chosen is not None:
+                await self._act(proc, chosen)
         elif op in ("static", "glob", "step", "run", "plan", "amend", "getinfo"):
             await self._act_api(proc, action)
         elif op == "rpc":
